@@ -130,7 +130,7 @@ func C12(tier common.Tier) int {
 						}
 						// nested @ignore scopes with the same token: a file-level comment in every file plus a stand-alone comment
 						// before the first declaration. Everything is suppressed in the base and must stay so in every layout.
-						if len(h) >= 2 && h[0].Encl != e1.EPkgVarDirect {
+						if len(h) >= 2 && h[0].Encl != e1.EPkgVarDirect && h[0].Encl != e1.EPkgVarDirectRev {
 							tok := "// @ignore " + fam.Name
 							ib := &e1.Spec{InU: inU, Mix: mix, Sites: use, FileIgnore: tok}
 							for i, b := range h {
